@@ -34,4 +34,31 @@ PROPS = {
             "the epoch is non-zero (config.Parse is called with the daemon start time)",
         ],
     },
+    "C13": {
+        "level_text": "Kernel-checked theorems for every address list of any length: membership iff some eligible address masks to the prefix, strictly ascending (hence each once), invariance under permutation and multiplicity, uniform stanza flags/lifetimes, failure propagation; tied to the source by differential runs of the real Prefix.Apply with an injected address source (bounded-exhaustive tuples over a 14-address pool + random lists).",
+        "level_note": "Trusted: Lean kernel; model of netip (Is4, IsLinkLocalUnicast, Masked, Compare) and of slices.SortStableFunc as a stable insertion sort; the harness. The rtnetlink address dump itself is outside the model.",
+        "packages": ["plugin"],
+        "gen": ["Plugin"],
+        "rule": "cases: every tuple (with repetition, all orders) of length <= 3 (quick) / <= 4 (thorough) over a 14-address pool mixing ULA/GUA/link-local/IPv4, /48 /64 /128, flags, several hosts per /64, plus random lists of up to 64 addresses with duplicates; evaluated by the real Prefix.Apply with injected Addrs; non-trivial iff the list has at least one eligible and one excluded address; distinct by canonical case line",
+        "exhaustive": {"quick": "all tuples of length <= 3 over the 14-address pool", "thorough": "all tuples of length <= 4 over the 14-address pool"},
+        "assumptions": ["the operating system supplies valid netip.Prefix values (AddressesByIndex constructs them with PrefixFrom)"],
+    },
+    "C14": {
+        "level_text": "Kernel-checked theorems for every address list of any length: betterRDNSS is the minimum of a total ranking key (stable first, then ULA < GUA < link-local < other, then lowest address); the fold returns the address of a rank-minimal eligible entry; invariant under permutation; no eligible address => error; static servers follow unchanged; tied to the source by the regenerated predicate order and differential runs of the real RDNSS.Apply.",
+        "level_note": "Trusted: Lean kernel; model of netip predicates (IsPrivate, IsGlobalUnicast, IsLinkLocalUnicast, Less, As16); the harness.",
+        "packages": ["plugin"],
+        "gen": ["Plugin"],
+        "rule": "cases: every tuple of length <= 3 (quick) / <= 4 (thorough) over an 18-address pool covering class x stability source x exclusion flag, rotated over 3 static server lists, plus random lists of up to 64 addresses; evaluated by the real RDNSS.Apply with injected Addrs; non-trivial iff at least two eligible addresses with different ranking keys; distinct by canonical case line",
+        "exhaustive": {"quick": "all tuples of length <= 3 over the 18-address pool", "thorough": "all tuples of length <= 4 over the 18-address pool"},
+        "assumptions": ["the operating system supplies valid netip.Prefix values"],
+    },
+    "C15": {
+        "level_text": "Kernel-checked theorems for every route dump of any length (canonical prefixes): membership iff IPv6, not /128 and not covered by a strictly shorter route; strictly ascending, no duplicates, pairwise non-overlapping; invariant under permutation and multiplicity; uniform stanza preference/lifetime; tied to the source by differential runs of the real Route.Apply with an injected route source.",
+        "level_note": "Trusted: Lean kernel; model of netip.Prefix (Contains, Overlaps, IsSingleIP) and of the stable sort; the harness. The rtnetlink route dump is outside the model; route prefixes are assumed canonical (the kernel masks destinations).",
+        "packages": ["plugin"],
+        "gen": ["Plugin"],
+        "rule": "cases: every tuple of length <= 3 (quick) / <= 4 (thorough) over a 12-route pool with nested prefixes at equal and different base addresses, /128, ::/0, IPv4, plus random dumps of up to 64 routes with duplicates; evaluated by the real Route.Apply with injected Routes; non-trivial iff the dump has a covering pair or a duplicated eligible route; distinct by canonical case line",
+        "exhaustive": {"quick": "all tuples of length <= 3 over the 12-route pool", "thorough": "all tuples of length <= 4 over the 12-route pool"},
+        "assumptions": ["route prefixes in the dump are canonical (masked), as the kernel reports them"],
+    },
 }
